@@ -122,7 +122,7 @@ Example C18_nonvacuous :
 Proof. vm_compute. repeat split; discriminate. Qed.
 
 (* ====================================================================================== *)
-(** NO PUBLIC CALL PANICS, as a theorem about the model (audit X5).  /repo HEAD f8fa07f.
+(** NO PUBLIC CALL PANICS, as a theorem about the model (audit X5).  /repo HEAD 7d42cff.
     [Sys.step] totalises the partial operations of src/multi.rs / src/draw_target.rs, so it has
     no panic outcome by construction.  model/SysPanic.v therefore defines the panic sites
     EXPLICITLY: [psite] (19 sites of the current code, file:line each, + 1 historical) and
@@ -133,21 +133,17 @@ Proof. vm_compute. repeat split; discriminate. Qed.
     draw_state} and DrawState::draw_to_term.  The row arithmetic of the draw_to_term guards is
     the RUST one ([wrapped_height_rs]: usize::MAX rows for a non-empty line at width 0,
     saturating sums), so the theorems hold for EVERY width W, 0 included.
-    Hypotheses (all on the state in which the call is made):
-      [MultiSpec.init_ok] / [MultiSpec.hist_ok] - the state is reached from an initial
-        configuration by calls through live handles, insert_before/after naming members;
-      [H < U16] - the type of TermLike::height();
-      [counters_fit s] - every last_line_count (+ zombie_lines_count) leaves room for two more
-        screens below usize::MAX; DERIVED in the _fresh variants from freshly created targets and
-        fewer than 2^46 calls ([C18_counters_grow]).
-    Caveat at W = 0: the COUNTER VALUES of Sys.v's states are computed with [Text.wrapped_height]
-    (1 row per line at W = 0; Rust: usize::MAX for a non-empty line) - the guards are proved silent
-    for ANY counter values within [counters_fit], but the derivation of [counters_fit] in the
-    _fresh variants is about Sys.v's counters (the Rust counters obey the same `n' <= H + n` per
-    draw: [dt_count_rs_le], not threaded through a W = 0-faithful state machine).
+    Hypotheses: [MultiSpec.init_ok] / [MultiSpec.hist_ok] - the state is reached from an initial
+    configuration by calls through live handles, insert_before/after naming members - and
+    [H < U16], the type of TermLike::height().  NOTHING about the row counters: since fix 7d42cff
+    draw_to_term caps last_line_count at the terminal height before it uses it, so
+    `real_height + shift <= 2 * height` whatever the counters hold (the former hypothesis
+    [counters_fit] and the _fresh variants / C18_counters_grow that derived it are gone; that
+    also removes the W = 0 caveat about Sys.v's counter values - no guard reads their magnitude).
     Not covered (docs/C18.md): lock poisoning after a panic inside a user closure / TermLike
-    impl, allocation failure, the sites of format_state / limiters / estimator (C05 C09 C10 C13
-    C14 C16), a second MultiProgress (`assert!(Arc::ptr_eq)`), the move_cursor branch. *)
+    impl / ProgressTracker, allocation failure, the sites of format_state / limiters / estimator
+    (C05 C09 C10 C13 C14 C16), builder-time calls (with_elapsed), a second MultiProgress
+    (`assert!(Arc::ptr_eq)`), the move_cursor branch. *)
 From IndModel Require Import SysPanic.
 From IndProofs Require Import SysPanicProofs.
 
@@ -157,7 +153,6 @@ From IndProofs Require Import SysPanicProofs.
     executed under ANY fault oracle [fails'] *)
 Theorem C18_no_panic_reachable : forall W H, H < U16 -> forall fails fails' s0 ops now o,
   MultiSpec.init_ok s0 -> MultiSpec.hist_ok W H fails s0 ops ->
-  counters_fit (MultiSpec.run W H fails s0 ops) ->
   MultiSpec.op_ok (MultiSpec.run W H fails s0 ops) o = true ->
   step_panics W H fails' (MultiSpec.run W H fails s0 ops) now o = None.
 Proof. exact no_panic_reachable. Qed.
@@ -169,7 +164,6 @@ Print Assumptions C18_no_panic_reachable.
     that `index().unwrap()`; equivalently [step_panics = None] iff [op_ok] *)
 Theorem C18_misuse_panics_exactly : forall W H, H < U16 -> forall fails fails' s0 ops now o,
   MultiSpec.init_ok s0 -> MultiSpec.hist_ok W H fails s0 ops ->
-  counters_fit (MultiSpec.run W H fails s0 ops) ->
   handles_alive (MultiSpec.run W H fails s0 ops) o = true ->
   step_panics W H fails' (MultiSpec.run W H fails s0 ops) now o
     = misuse_site (MultiSpec.run W H fails s0 ops) o
@@ -185,25 +179,24 @@ Proof. exact op_ok_split. Qed.
 Print Assumptions C18_misuse_enumerated.
 
 (** (3) whole histories under an arbitrary fault oracle: no call of a valid history reaches a
-    site ([run_panics] = index and site of the first panic).  The counters the guards read
-    (last_line_count, zombie_lines_count) are exactly what faults change (C18_structure), so the
-    hypothesis [hist_fits] ([counters_fit] at every visited state) is stated on THIS (faulty) run. *)
+    site ([run_panics] = index and site of the first panic).  Faults change exactly
+    last_line_count / cursor_below / zombie_lines_count / the call counter (C18_structure); the
+    guards read the fault-independent structure, and the counters only through the cap. *)
 Theorem C18_no_panic_under_faults : forall W H, H < U16 -> forall fails s0 ops,
-  MultiSpec.init_ok s0 -> MultiSpec.hist_ok W H fails s0 ops -> hist_fits W H fails s0 ops ->
-  run_panics W H fails s0 ops = None.
+  MultiSpec.init_ok s0 -> MultiSpec.hist_ok W H fails s0 ops -> run_panics W H fails s0 ops = None.
 Proof. exact run_no_panic_init. Qed.
 Print Assumptions C18_no_panic_under_faults.
 
 (** one call, from the invariants (MInv + Refines: what C02_order_reachable establishes) *)
 Theorem C18_no_panic_step : forall W H fails, H < U16 -> forall s a now o,
-  MInv s -> Refines s a -> counters_fit s ->
+  MInv s -> Refines s a ->
   MultiSpec.op_ok s o = true -> step_panics W H fails s now o = None.
 Proof. exact step_np. Qed.
 Print Assumptions C18_no_panic_step.
 
 (** the row arithmetic of the guards is the model's wherever the model is faithful: for W >= 1 and
-    a frame whose row count does not saturate, the count the guard tests at draw_target.rs:630 is
-    the last_line_count [Draw.draw_to_term] returns (since fix 7d42cff the incoming count is capped at
+    a frame whose row count does not saturate, the count the guard tests at draw_target.rs:642 (computed from the
+    CAPPED count, fix 7d42cff) is the last_line_count [Draw.draw_to_term] returns (since fix 7d42cff the incoming count is capped at
     the height first: [N.min n H]; the guard model SysPanic.dt_* still computes with the count it is
     given, i.e. it is evaluated at the capped count here); and for EVERY width a draw reports at most
     one screen more than it was given *)
@@ -231,7 +224,6 @@ Print Assumptions C18_draw_count_bounded_every_width.
     zero-width-zombie-scan-add-overflow. *)
 Theorem C18_zero_width_overflow_regression :
   MultiSpec.init_ok np_sys /\ MultiSpec.hist_ok 0 10 np_nofail np_sys (np_ops ++ [(6, OTick 3)])
-  /\ hist_fits 0 10 np_nofail np_sys (np_ops ++ [(6, OTick 3)])
   /\ run_panics_pre_f8fa07f 0 10 np_nofail np_sys (np_ops ++ [(6, OTick 3)]) = Some (14%nat, P_draw_adjust_add)
   /\ step_panics_pre_f8fa07f 0 10 np_nofail (MultiSpec.run 0 10 np_nofail np_sys np_ops) 6 (OMPrintln [104]) = Some P_draw_adjust_add
   /\ run_panics_pre_f8fa07f 1 10 np_nofail np_sys (np_ops ++ [(6, OTick 3)]) = None
@@ -244,12 +236,12 @@ Print Assumptions C18_zero_width_overflow_regression.
     goes through insert_after, insert_before, insert_from_back, a re-add, println and suspend of a
     member, suspend / println / clear of the MultiProgress, remove, Bottom alignment, a drop behind
     the head (flag), a drop at the head (mark_zombie reaps), the draw that reaps the flagged bar:
-    every hypothesis holds at every state and no site is reached - on a 7x4 terminal AND on a
+    the history is valid and no site is reached - on a 7x4 terminal AND on a
     zero-width one *)
 Example C18_no_panic_nonvacuous :
-  MultiSpec.init_ok np_sys /\ MultiSpec.hist_ok 7 4 np_fails2 np_sys np_ops2 /\ hist_fits 7 4 np_fails2 np_sys np_ops2
+  MultiSpec.init_ok np_sys /\ MultiSpec.hist_ok 7 4 np_fails2 np_sys np_ops2
   /\ run_panics 7 4 np_fails2 np_sys np_ops2 = None
-  /\ MultiSpec.hist_ok 0 4 np_fails2 np_sys np_ops2 /\ hist_fits 0 4 np_fails2 np_sys np_ops2
+  /\ MultiSpec.hist_ok 0 4 np_fails2 np_sys np_ops2
   /\ run_panics 0 4 np_fails2 np_sys np_ops2 = None
   /\ map (fun k => ms_order (s_mp (MultiSpec.run 7 4 np_fails2 np_sys (firstn k np_ops2)))) [4; 13; 16; 17; 19; 21]%nat
      = [[2; 0; 3; 1]; [2; 0; 1]; [2; 0; 1]; [0; 1]; [1]; []]
@@ -265,35 +257,3 @@ Example C18_misuse_yields_site :
   /\ step_panics 5 10 np_nofail s 1 (OInsert (BBefore 2) 0) = Some P_insert_before_index_unwrap
   /\ step_panics 5 10 np_nofail s 1 (OInsert (BAfter 0) 1) = None.
 Proof. exact misuse_example. Qed.
-
-(** The counters, from the history (no hypothesis about last_line_count / zombie_lines_count):
-    from freshly created targets ([counters_zero]: every counter 0) each call raises every
-    last_line_count, and last_line_count + zombie_lines_count of the MultiProgress, by at most
-    2 * H - under EVERY fault oracle (a draw reports n' <= H + n, at most two draws per call,
-    reaping only moves rows between the two counters) *)
-Theorem C18_counters_grow : forall W H fails s0 ops, counters_zero s0 ->
-  let s := MultiSpec.run W H fails s0 ops in
-  (forall b tg, b_target (get_bar s b) = TTerm tg -> tt_n tg <= 2 * H * N.of_nat (length ops))
-  /\ region_count (s_mp s) <= 2 * H * N.of_nat (length ops).
-Proof. exact counters_grow. Qed.
-Print Assumptions C18_counters_grow.
-
-(** (1) again, with [counters_fit] DERIVED: fresh targets and fewer than 2^46 calls so far -
-    no hypothesis left but the type of height() *)
-Theorem C18_no_panic_reachable_fresh : forall W H, H < U16 -> forall fails fails' s0 ops now o,
-  MultiSpec.init_ok s0 -> counters_zero s0 -> MultiSpec.hist_ok W H fails s0 ops ->
-  N.of_nat (length ops) < CALLS_MAX ->
-  MultiSpec.op_ok (MultiSpec.run W H fails s0 ops) o = true ->
-  step_panics W H fails' (MultiSpec.run W H fails s0 ops) now o = None.
-Proof. exact no_panic_fresh. Qed.
-Print Assumptions C18_no_panic_reachable_fresh.
-
-(** (3) again: whole histories under an arbitrary fault oracle *)
-Theorem C18_no_panic_under_faults_fresh : forall W H, H < U16 -> forall fails s0 ops,
-  MultiSpec.init_ok s0 -> counters_zero s0 -> MultiSpec.hist_ok W H fails s0 ops ->
-  N.of_nat (length ops) < CALLS_MAX -> run_panics W H fails s0 ops = None.
-Proof. exact run_no_panic_fresh. Qed.
-Print Assumptions C18_no_panic_under_faults_fresh.
-
-Example C18_fresh_nonvacuous : counters_zero np_sys /\ N.of_nat (length np_ops2) < CALLS_MAX.
-Proof. exact fresh_example. Qed.
